@@ -245,6 +245,8 @@ func checkC18(c *Check) {
 	c.floor("C18.2 length-value-row", n, 11, "typed attribute decoders")
 	c.asPathSegments("C18.2 as-path-segments", "C18.3 nothing-lost")
 	c.setDecoders("C18.3 nothing-lost")
+	c.ignoredErrorBeliefs("C18.3 discarded-error-belief", []string{"OriginPathAttr.Decode", "ASPathAttr.Decode", "NextHopPathAttr.Decode", "MEDPathAttr.Decode", "LocalPrefPathAttr.Decode", "AtomicAggregatePathAttr.Decode",
+		"AggregatorPathAttr.Decode", "CommunitiesPathAttr.Decode", "OriginatorIDPathAttr.Decode", "ClusterListPathAttr.Decode", "LargeCommunitiesPathAttr.Decode"})
 	c.checkBounds("C18.4", []string{"OriginPathAttr.Decode", "ASPathAttr.Decode", "NextHopPathAttr.Decode", "MEDPathAttr.Decode", "LocalPrefPathAttr.Decode", "AtomicAggregatePathAttr.Decode",
 		"AggregatorPathAttr.Decode", "CommunitiesPathAttr.Decode", "OriginatorIDPathAttr.Decode", "ClusterListPathAttr.Decode", "LargeCommunitiesPathAttr.Decode",
 		"decodeUint32Set", "decodeLargeCommunitySet", "notifDataForAttrBasedErr", "PathAttrFlags.Validate"}, 30)
@@ -473,4 +475,82 @@ func (c *Check) setDecoders(rule string) {
 		// unconditional append: the append's block dominates the back edge
 		c.require(okA && adv, rule, s.fn, "element loop", p.Pos(fn.Pos()), fmt.Sprintf("one unconditional append per %d-octet element, cursor advances by %d", s.step, s.step))
 	}
+}
+
+// ignoredErrorBeliefs: a decoder that discards the error of a helper states a
+// belief -- "under the checks I already made this cannot fail". The belief is
+// checked where it is stated: the helper is analysed in the caller's context
+// (arguments and the caller's branch facts bound) and every state after the
+// call must have a provably nil error. If the helper grows a new failure the
+// caller does not exclude, the caller silently succeeds with an empty value
+// (a well-formed attribute "loses" its communities).
+func (c *Check) ignoredErrorBeliefs(rule string, fns []string) {
+	p := c.P
+	n := 0
+	for _, name := range fns {
+		fn := p.Fn(name)
+		if fn == nil {
+			continue
+		}
+		var sites []*ssa.Call
+		allInstrs(fn, func(in ssa.Instruction) {
+			call, ok := in.(*ssa.Call)
+			if !ok {
+				return
+			}
+			callee := p.staticLocalCallee(call)
+			if callee == nil {
+				return
+			}
+			tup, ok := call.Type().(*types.Tuple)
+			if !ok || tup.Len() < 2 || tup.At(tup.Len()-1).Type().String() != "error" {
+				return
+			}
+			used := false
+			for _, r := range *call.Referrers() {
+				if ex, ok := r.(*ssa.Extract); ok && ex.Index == tup.Len()-1 && len(*ex.Referrers()) > 0 {
+					used = true
+				}
+			}
+			if !used {
+				sites = append(sites, call)
+			}
+		})
+		for _, call := range sites {
+			n++
+			callee := p.staticLocalCallee(call)
+			a := NewAnalysis(p, fn)
+			a.ForceInline = map[string]bool{p.Name(callee): true}
+			a.Run()
+			// the instruction after the call
+			blk := call.Block()
+			var next ssa.Instruction
+			for i, in := range blk.Instrs {
+				if in == ssa.Instruction(call) && i+1 < len(blk.Instrs) {
+					next = blk.Instrs[i+1]
+				}
+			}
+			ok := next != nil && len(a.At[next]) > 0
+			detail := ""
+			if ok {
+				for _, st := range a.At[next] {
+					t := a.ExprAt(st, call)
+					if t == nil || t.Op != "tuple" || len(t.Args) < 2 {
+						ok, detail = false, "the helper could not be analysed in the caller's context ("+trunc(fmt.Sprint(t), 60)+")"
+						break
+					}
+					if v, isC := st.nonNil(t.Args[len(t.Args)-1]).IsConst(); !isC || v != 0 {
+						ok, detail = false, "under the caller's checks the helper can still return the error "+trunc(t.Args[len(t.Args)-1].Key, 80)
+					}
+				}
+			}
+			if len(a.Undecided) > 0 {
+				c.undecided(rule, name, "discarded error of "+p.Name(callee), p.InstrPos(call), a.Undecided[0])
+				continue
+			}
+			c.require(ok, rule, name, "discarded error of "+p.Name(callee), p.InstrPos(call),
+				"the error result is discarded, so the helper must be unable to fail under the checks already made by the caller "+detail)
+		}
+	}
+	c.floor(rule, n, 1, "call sites that discard a helper's error")
 }
